@@ -167,6 +167,8 @@ class World(object):
                     merged.append(a)
             self.ce = merged + (vce if self.vac else [])
         self.evalues = draw_values(rnd, len(self.ce) + 1, w["values"], energies=True)
+        if w.get("noconst"):
+            self.evalues = self.evalues[:-1]       # the trailing constant term is optional (len(values) == len(clusters))
         self.ts = (tsv if self.vac else ts) if w["ts"] else []
         self.tsvalues = draw_values(rnd, len(self.ts), w["values"])
         if w["kra"] == "list":
@@ -1291,6 +1293,7 @@ class Engine(object):
             w["shared_sup"] = rng.choice((False, False, False, False, False, "values", "jumpnet", "expansion"))
             w["quiet"] = rng.choice((0, 0, 0.5, 0.9))
             w["merge"] = rng.random() < 0.25
+            w["noconst"] = rng.random() < 0.2
             w["jnperm"] = rng.choice((None, None, None, "split", "shuffle"))
             w["class"] = "{}/{}/c{}o{}{}{}{}".format(c, s, cutoff, order, "/vac" if vac else "",
                                                      "/jn" if jumps else "", "/ts" if w["ts"] else "")
